@@ -10,7 +10,12 @@
 (*   quiet   all watchers have handled all events (barrier); the observed live objects           *)
 (*                                                                  -> no obligation left,       *)
 (*                                                                     live set = contract's     *)
-(*   reset   a fresh supervisor                                                                  *)
+(*   reset   a fresh supervisor is about to be started (nothing has begun)                       *)
+(*   up      the supervisor is up (supervisor.MustNew has returned): both groups of objects have *)
+(*           begun to be reconciled.  The snapshots logged between `reset` and `up` were handed   *)
+(*           to the syncer channel while the supervisor was starting; the moment at which a      *)
+(*           group begins (CBegin, a silent step) is searched by TLC                              *)
+(*   note    (coverage only) what the harness did to the schedule of a start-up                   *)
 (*   gate    (coverage only) end of a long burst of snapshots pushed while the handlers were     *)
 (*           kept busy by slow / gated callbacks; nothing happens in the contract: however far   *)
 (*           the reconciliation lags behind the snapshots, the obligations stay the same         *)
@@ -35,6 +40,7 @@ TReset ==
     /\ IsEvent("reset")
     /\ snap' = [x \in Names |-> None] /\ clive' = [x \in Names |-> NoInst]
     /\ step' = 0 /\ pend' = {} /\ done' = {}
+    /\ begun' = [g \in Groups |-> FALSE] /\ since' = [x \in Names |-> 0]
     /\ bind' = <<>>
 
 TSnap ==
@@ -61,16 +67,23 @@ TCb ==
 
 TQuiet ==
     /\ IsEvent("quiet")
-    /\ pend = {}
+    /\ Up /\ pend = {}
     /\ \A x \in Names :
          LET o == TLog[l].live[x] IN
          /\ o.k = clive[x].k /\ o.v = clive[x].v
          /\ clive[x] # NoInst => (o.id \in DOMAIN bind /\ bind[o.id] = Ref(x, clive[x].born))
     /\ UNCHANGED <<cvars, bind>>
 
-TGate == IsEvent("gate") /\ UNCHANGED <<cvars, bind>>
+TGate == (IsEvent("gate") \/ IsEvent("note")) /\ UNCHANGED <<cvars, bind>>
 
-TNext == TReset \/ TSnap \/ TCb \/ TQuiet \/ TGate
+(* start-up: a group begins at some moment before the supervisor is up *)
+TBegin == /\ l <= Len(TLog) /\ TLog[l].ev # "reset"
+          /\ \E g \in Groups : CBegin(g)
+          /\ UNCHANGED <<l, bind>>
+
+TUp == IsEvent("up") /\ Up /\ UNCHANGED <<cvars, bind>>
+
+TNext == TReset \/ TSnap \/ TCb \/ TQuiet \/ TGate \/ TBegin \/ TUp
 
 TInit == CInit /\ l = 1 /\ bind = <<>>
 
